@@ -8,6 +8,7 @@
 (*   offset r of t from ref :  Inst(ref) + r = Inst(t)                     *)
 (*   ref + off = res        :  Inst(res) = Inst(ref) + off, res.t < tps    *)
 (*   refusal                :  tps = 0 or Inst(ref) + off < 0; unchanged   *)
+(*   Inst(ref) + off >= 2^63:  only defined behaviour is demanded          *)
 (***************************************************************************)
 EXTENDS Bytes, Json, IOUtils, TLC
 
@@ -27,7 +28,13 @@ BelowZero(x, r) == r.neg /\ Lt(x, Add(r.a, One))
 
 OffOK(ev) == IF ev.tps = <<>> THEN ev.out = "refused"
              ELSE ev.out = "ok" /\ PlusIs(Inst(ev.ref, ev.tps), ev.r, Inst(ev.t, ev.tps))
-AddOK(ev) == IF ev.tps = <<>> \/ BelowZero(Inst(ev.ref, ev.tps), ev.off)
+(* x + signed(r) >= 2^63: the result is no instant of the representable range; the statement then only asks *)
+(* for defined behaviour (no CRASH event from UBSan) and that a refusal leaves the value alone             *)
+Max63 == <<127, 255, 255, 255, 255, 255, 255, 255>>
+Beyond(x, r) == ~r.neg /\ Lt(Max63, Add(x, r.a))
+AddOK(ev) == IF ev.tps # <<>> /\ Beyond(Inst(ev.ref, ev.tps), ev.off)
+             THEN ev.out = "refused" => ev.res = ev.ref
+             ELSE IF ev.tps = <<>> \/ BelowZero(Inst(ev.ref, ev.tps), ev.off)
              THEN ev.out = "refused" /\ ev.res = ev.ref
              ELSE /\ ev.out = "ok"
                   /\ PlusIs(Inst(ev.ref, ev.tps), ev.off, Inst(ev.res, ev.tps))
